@@ -393,3 +393,47 @@ Proof.
 Qed.
 Lemma run_flat_unmark : forall e rs p, result_unmarked_as p (run_flat e rs p).
 Proof. intros. unfold run_flat. apply go_unmark. intros. exact I. Qed.
+
+(* ------------------------------------------------------------------ trailing RETURN rules are no-ops *)
+(* Felix strips RETURN rules from the end of policy chains.  Seen from a caller (which treats an explicit
+   RETURN and running off the end alike) nothing changes: `collapse` identifies the two. *)
+Definition collapse (r : result) : result := match r with RReturn p => RFall p | x => x end.
+Definition is_return (r : irule) : bool := match ir_action r with AReturn => true | _ => false end.
+Fixpoint strip_trailing_returns (rs : list irule) : list irule :=
+  match rs with
+  | [] => []
+  | r :: rs' =>
+      match strip_trailing_returns rs' with
+      | [] => if is_return r then [] else [r]
+      | l => r :: l
+      end
+  end.
+
+Lemma go_cons_collapse : forall cs e call r l1 l2,
+  (forall q, collapse (go cs e call l1 q) = collapse (go cs e call l2 q)) ->
+  forall p, collapse (go cs e call (r :: l1) p) = collapse (go cs e call (r :: l2) p).
+Proof.
+  intros cs e call r l1 l2 H p. cbn [go]. destruct (matches e p (ir_match r)); [|apply H].
+  destruct (ir_action r); try apply H; try reflexivity.
+  destruct (lookup cs c); [|reflexivity]. destruct (call l p); try reflexivity; apply H.
+Qed.
+
+Lemma strip_trailing_returns_ok : forall cs e call rs p,
+  collapse (go cs e call (strip_trailing_returns rs) p) = collapse (go cs e call rs p).
+Proof.
+  intros cs e call rs. induction rs as [|r rs IH]; intro p; [reflexivity|].
+  cbn [strip_trailing_returns]. destruct (strip_trailing_returns rs) as [|x l] eqn:E.
+  - destruct (is_return r) eqn:Er.
+    + cbn [go]. unfold is_return in Er. destruct (matches e p (ir_match r)).
+      * destruct (ir_action r); try discriminate. reflexivity.
+      * rewrite <- IH. reflexivity.
+    + apply go_cons_collapse. exact IH.
+  - apply go_cons_collapse. exact IH.
+Qed.
+
+Lemma run_flat_strip_trailing_returns : forall e rs p,
+  collapse (run_flat e (strip_trailing_returns rs) p) = collapse (run_flat e rs p).
+Proof. intros. apply strip_trailing_returns_ok. Qed.
+Lemma run_strip_trailing_returns : forall f cs e rs p,
+  collapse (run f cs e (strip_trailing_returns rs) p) = collapse (run f cs e rs p).
+Proof. intros [|f] cs e rs p; [reflexivity|]. cbn [run]. apply strip_trailing_returns_ok. Qed.
